@@ -245,4 +245,7 @@ def check(model, tier):
     from ..rules import mutation as _mutation
 
     _mutation.r09_4_no_shared_mutation(ctx)
+    from ..rules.foundation import run_foundation
+
+    run_foundation(ctx, "07")
     return run
